@@ -41,6 +41,12 @@ def cases(tier):
                         continue
                     out.append({'rings': rings, 'ducts': ducts, 'se2': se2,
                                 'pd': pd, 'wire': wire, 'clr': clr})
+    # wire lead: short, and beyond the range of the friction correlations (DASSH warns, the geometry is as stated)
+    for rings in range(2, 21):
+        for se2 in (False, True):
+            for hd in ((8.0, 60.0, 150.0) if tier == 'thorough' or rings % 3 == 0 else (60.0,)):
+                out.append({'rings': rings, 'ducts': 1, 'se2': se2, 'pd': 1.20, 'wire': True, 'clr': 'mid',
+                            'hd': hd})
     return out
 
 
@@ -87,7 +93,7 @@ def run_case(c):
     V = r['violations']
     n = c['rings']
     # unequal wall and bypass thicknesses (inside out) so that index slips between ducts show
-    dsn = S.design(n, pd=c['pd'], ducts=c['ducts'], wire=c['wire'],
+    dsn = S.design(n, pd=c['pd'], ducts=c['ducts'], wire=c['wire'], hd=c.get('hd', 30.0),
                    clearance=c['clr'], oftf=0.012 * n + 0.03,
                    duct_t=[0.002, 0.003, 0.0035][:c['ducts']], byp_t=[0.0025, 0.004])
     P, D = dsn['pin_pitch'], dsn['pin_diameter']
